@@ -6,7 +6,8 @@ M: TLC runs the pipeline state machine of spec/Emit.tla (snapshot ctxt -> resolv
    DirectBypass, ShortCircuit against the logical definitions (Truth / InvA / Reach / Built).
 G: every finished configuration is printed with the statement's prediction and executed on
    the real combinators by harness/vh_core/src/bin/c01_emit.rs: type-erased trees of any
-   depth, plus stamped statically typed trees with user-defined generic leaves; entries
+   depth (incl. wrapping::from_fn, nested Runtime destinations, AssertInternal), plus stamped
+   statically typed trees with user-defined generic leaves / wrappings; entries
    Runtime::emit, Emitter::emit on a Runtime, emit_core::emit, emit! (with / without
    `when`), emit!(evt: ..), Emitter::emit on the destination tree.
 """
@@ -47,7 +48,8 @@ def run(ctx):
         seen = rep["extra"]["seen"]
         need = ["entry:rt", "entry:rt_as_emitter", "entry:core", "entry:macro", "entry:macro_evt", "entry:direct",
                 "f:and", "f:or", "f:none", "f:opt", "f:ref", "f:box", "f:arc", "f:erased",
-                "e:and", "e:wrap", "e:none", "e:opt", "e:ref", "e:box", "e:arc", "e:erased"]
+                "e:and", "e:wrap", "e:none", "e:opt", "e:ref", "e:box", "e:arc", "e:erased",
+                "f:assert", "e:assert", "e:wrapfn", "e:rt"]
         missing = [k for k in need if not seen.get(k)]
         if missing or not rep["extra"]["static_runs"]:
             raise vlib.ToolError("vacuity: never exercised: %s" % missing)
@@ -69,6 +71,8 @@ def run(ctx):
         "the ambient context is a fixed Ctxt whose current properties are a slice (the thread-local context is C03's subject); "
         "the clock is scripted",
         "blocking_flush is not modelled",
+        "a nested Runtime used as a destination is the statement applied again to that runtime (its filter must accept the event "
+        "extended by its ambient properties / its clock's reading; its destinations receive that event)",
         "bounded: %s; scenario products, not the full product of all dimensions (see MCEmit.tla ScensFor)"
         % vlib.cfg_header(os.path.join(vlib.SPEC, cfg)),
     ]
